@@ -546,14 +546,14 @@ impl EpochDifficultyTrend {
                     let state = "decreased";
                     for index in 0..*epochs_count {
                         curr /= tau;
-                        total = total.checked_add(&curr).unwrap_or_else(|| {
-                            panic!(
+                        total = total.checked_add(&curr).ok_or_else(|| {
+                            format!(
                                 "overflow when calculate the limit of total difficulty, \
                                 total: {}, current: {}, index: {}/{}, tau: {}, \
                                 state: {}, trend: {:?}, details: {:?}",
                                 total, curr, index, epochs_count, tau, state, self, details
-                            );
-                        });
+                            )
+                        })?;
                         if total >= *actual {
                             if check_max {
                                 debug!("check total difficulty: not greater than upper limit (short-circuit)");
@@ -573,14 +573,14 @@ impl EpochDifficultyTrend {
                     let state = "increased";
                     for index in 0..*epochs_count {
                         curr = curr.saturating_mul(&tau_u256);
-                        total = total.checked_add(&curr).unwrap_or_else(|| {
-                            panic!(
+                        total = total.checked_add(&curr).ok_or_else(|| {
+                            format!(
                                 "overflow when calculate the limit of total difficulty, \
                                 total: {}, current: {}, index: {}/{}, tau: {}, \
                                 state: {}, trend: {:?}, details: {:?}",
                                 total, curr, index, epochs_count, tau, state, self, details
-                            );
-                        });
+                            )
+                        })?;
                         if total >= *actual {
                             if check_max {
                                 debug!("check total difficulty: not greater than upper limit (short-circuit)");
@@ -598,8 +598,15 @@ impl EpochDifficultyTrend {
                 }
             }
         }
+        let total_with_unaligned = total.checked_add(unaligned).ok_or_else(|| {
+            format!(
+                "overflow when calculate the limit of total difficulty, \
+                total: {}, unaligned: {}",
+                total, unaligned
+            )
+        })?;
         if check_max {
-            if &total + unaligned >= *actual {
+            if total_with_unaligned >= *actual {
                 debug!("check total difficulty: not greater than upper limit (fully-calculated)");
                 Ok(())
             } else {
@@ -609,7 +616,7 @@ impl EpochDifficultyTrend {
                 );
                 Err(errmsg)
             }
-        } else if &total + unaligned <= *actual {
+        } else if total_with_unaligned <= *actual {
             debug!("check total difficulty: not less than lower limit (fully-calculated)");
             Ok(())
         } else {
@@ -1000,10 +1007,22 @@ pub(crate) fn verify_tau(
         }
         Ok(true)
     } else {
+        if start_epoch.number() > end_epoch.number() {
+            error!("failed: the epoch number is decreased");
+            return Err(StatusCode::InvalidCompactTarget.into());
+        }
         let start_block_difficulty = compact_to_difficulty(start_compact_target);
         let end_block_difficulty = compact_to_difficulty(end_compact_target);
-        let start_epoch_difficulty = start_block_difficulty * start_epoch.length();
-        let end_epoch_difficulty = end_block_difficulty * end_epoch.length();
+        let (start_epoch_difficulty, end_epoch_difficulty) = match (
+            start_block_difficulty.checked_mul(&U256::from(start_epoch.length())),
+            end_block_difficulty.checked_mul(&U256::from(end_epoch.length())),
+        ) {
+            (Some(start), Some(end)) => (start, end),
+            _ => {
+                error!("failed: the epoch difficulty is overflow");
+                return Err(StatusCode::InvalidCompactTarget.into());
+            }
+        };
         // How many times are epochs switched?
         let epochs_switch_count = end_epoch.number() - start_epoch.number();
         let epoch_difficulty_trend =
@@ -1030,12 +1049,32 @@ pub(crate) fn verify_total_difficulty(
         return Err(errmsg);
     }
 
+    if !start_epoch.is_well_formed()
+        || !end_epoch.is_well_formed()
+        || start_epoch.number() > end_epoch.number()
+        || (start_epoch.number() == end_epoch.number() && start_epoch.index() > end_epoch.index())
+    {
+        let errmsg = format!(
+            "failed since the epochs ([{:#},{:#}]) are malformed or decreased",
+            start_epoch, end_epoch
+        );
+        return Err(errmsg);
+    }
+    let overflow_errmsg = || {
+        format!(
+            "failed since the difficulty is overflow during epochs ([{:#},{:#}])",
+            start_epoch, end_epoch
+        )
+    };
+
     let total_difficulty = end_total_difficulty - start_total_difficulty;
     let start_block_difficulty = &compact_to_difficulty(start_compact_target);
 
     if start_epoch.number() == end_epoch.number() {
         let total_blocks_count = end_epoch.index() - start_epoch.index();
-        let total_difficulty_calculated = start_block_difficulty * total_blocks_count;
+        let total_difficulty_calculated = start_block_difficulty
+            .checked_mul(&U256::from(total_blocks_count))
+            .ok_or_else(overflow_errmsg)?;
         if total_difficulty != total_difficulty_calculated {
             let errmsg = format!(
                 "failed since total difficulty is {:#x} \
@@ -1053,8 +1092,12 @@ pub(crate) fn verify_total_difficulty(
     } else {
         let end_block_difficulty = &compact_to_difficulty(end_compact_target);
 
-        let start_epoch_difficulty = start_block_difficulty * start_epoch.length();
-        let end_epoch_difficulty = end_block_difficulty * end_epoch.length();
+        let start_epoch_difficulty = start_block_difficulty
+            .checked_mul(&U256::from(start_epoch.length()))
+            .ok_or_else(overflow_errmsg)?;
+        let end_epoch_difficulty = end_block_difficulty
+            .checked_mul(&U256::from(end_epoch.length()))
+            .ok_or_else(overflow_errmsg)?;
         // How many times are epochs switched?
         let epochs_switch_count = end_epoch.number() - start_epoch.number();
         let epoch_difficulty_trend =
@@ -1074,8 +1117,14 @@ pub(crate) fn verify_total_difficulty(
         // Step-2 Check the range of total difficulty.
         let start_epoch_blocks_count = start_epoch.length() - start_epoch.index() - 1;
         let end_epoch_blocks_count = end_epoch.index() + 1;
-        let unaligned_difficulty_calculated = start_block_difficulty * start_epoch_blocks_count
-            + end_block_difficulty * end_epoch_blocks_count;
+        let unaligned_difficulty_calculated = start_block_difficulty
+            .checked_mul(&U256::from(start_epoch_blocks_count))
+            .and_then(|start_part| {
+                end_block_difficulty
+                    .checked_mul(&U256::from(end_epoch_blocks_count))
+                    .and_then(|end_part| start_part.checked_add(&end_part))
+            })
+            .ok_or_else(overflow_errmsg)?;
         if epochs_switch_count == 1 {
             if total_difficulty != unaligned_difficulty_calculated {
                 let errmsg = format!(
